@@ -156,9 +156,10 @@ def step (f : Facts) (st : State) : Event → State × Reply
     match st.sessions[i]? with
     | some .idle => afterSearch st i (search f [] st.pool)          -- viewed_ports = set()
     | some (.listening _) => (st, .already)                          -- passive_server future already done
-    -- NOT modelled: a second PASV/EPSV pipelined while the first handler is still suspended (`starting`).
-    -- The code would run a second start-up concurrently and the later `connection.passive_server = ...`
-    -- would overwrite the earlier one; sessions are sequential here (one PASV/EPSV in flight).
+    -- a second PASV/EPSV cannot arrive at a handler while the first is still suspended (`starting`): the dispatcher
+    -- starts handlers one at a time (C05.pipelined_commands_handled_in_order) and the test-start-record section is
+    -- under a per-connection lock (C11.pipelined_passive_conserves, Model/PassiveRace.lean); on the pinned tree two
+    -- start-ups ran side by side and the later assignment replaced the earlier listener (F16)
     | _ => (st, .none)
   | .started i o =>
     match st.sessions[i]? with
